@@ -110,6 +110,9 @@ PROPS = {
             ("rsass::ordermap::OrderMap::remove", "ordermap.rs", r"pub fn remove"),
             ("rsass::ordermap::OrderMap::contains_key", "ordermap.rs", r"pub fn contains_key"),
             ("<OrderMap as PartialEq>::eq", "ordermap.rs", r"impl<K: PartialEq, V: PartialEq> PartialEq for OrderMap"),
+            ("sass::functions::map::find_value + get / has_key closures", "sass/functions/map.rs", r"^fn find_value"),
+            ("sass::functions::map merge closure (do_merge)", "sass/functions/map.rs", r"fn do_merge"),
+            ("sass::Value::do_evaluate (Map arm: map literals)", "sass/value.rs", r"Self::Map\(m\) =>"),
         ],
         "bounds": {
             "quick": "instantiation OrderMap<Key(u8) with == mod 4, u8>; from an ARBITRARY valid map of exactly 0,1,2,3 entries (symbolic "
@@ -142,6 +145,7 @@ PROPS = {
             ("rsass::variablescope::Scope::set_variable", "variablescope.rs", r"pub fn set_variable"),
             ("rsass::variablescope::Scope::define_global", "variablescope.rs", r"pub fn define_global"),
             ("rsass::output::transform::handle_item (Item::For / Each / While arms)", "output/transform.rs", r"Item::For\(name, range, body\) =>"),
+            ("rsass::variablescope::Scope::store_local_values / restore_local_values", "variablescope.rs", r"fn store_local_values"),
         ],
         "bounds": {"quick": "Scope::set_variable for ANY name/value, both flags symbolic, the existing binding arbitrary (absent / null / any value kind); define_global one step (inductive over the parent chain)"},
         "outside": "which transform.rs / eval_body arms create sub-scopes (rules, mixins, functions vs flow control), store_local_values/restore_local_values around @each, parameters and loop variables being local (define() callers); the Mutex<BTreeMap> itself is an opaque event",
@@ -207,10 +211,11 @@ PROPS = {
         "functions": [
             ("<RuleDest as CssDestination>::push_item", "output/cssdest.rs", r"impl CssDestination for RuleDest"),
             ("RuleDest::commit_rule", "output/cssdest.rs", r"fn commit_rule\(&mut self\)"),
+            ("rsass::css::SelectorCtx::at_root / nest / get_backref", "css/selectors/context.rs", r"pub\(crate\) fn at_root"),
             ("RuleDest / AtRuleDest / AtMediaDest :: start_atmedia, start_atrule", "output/cssdest.rs", r"fn start_atmedia\(&mut self, args: MediaArgs\) -> AtMediaDest<'_> \{"),
         ],
         "bounds": {"quick": "one push_item / commit_rule / start_* call from an ARBITRARY destination state and for any item (the item kind is symbolic), every outcome of the parent's answer"},
-        "outside": "how the selector copy is built and printed (selector trees: C19), merging of nested @media queries (rsass nests them), @at-root (Scope/selector context), "
+        "outside": "how the selector copy is built and printed (selector trees: C19), merging of nested @media queries (rsass nests them), "
                    "the commit performed by the Drop impls (C21 kernel), anything that needs a whole stylesheet",
         "stubs": ["parent.push_item / commit_rule: Ok or Err", "AtRule -> BodyItem conversion: Ok or Err", "Rule::new / SelectorSet::clone / mem::swap are tracked by identity"],
         "assumptions": ["rustc nightly MIR text = the code that is compiled", "mirsym's MIR subset semantics (/verif/mirsym/sym.py)", "z3 5.1 and cvc5 1.0.3 (every query on both)"],
